@@ -106,7 +106,7 @@ class Bench:
             "app": [m for m in s.app_msgs],
             "buffer": bytes(s._msg_buffer),
             "state": s.connection_state,
-            "journal": s._journaler.recover_messages(s._session, MessageDirection.INBOUND, 2, 10**9),
+            "journal": list(s._journaler.recover_messages(s._session, MessageDirection.INBOUND, 2, 10**9)),
             "task_alive": not s._aio_task_socket_read.done(),
         }
         # undo: bring the session back to "expecting 2"
